@@ -93,6 +93,10 @@ def check(repo: Repo, rep: Report) -> None:
                         if not any(isinstance(a, ast.Name) and a.id == act for a in vals):
                             continue
                         ok = any(isinstance(a, ast.Name) and a.id == st for a in vals)
+                        # positional roles: (..., action, state) — the callee's own order
+                        pos = [a.id for a in x.args if isinstance(a, ast.Name) and a.id in (act, st)]
+                        if pos and pos != sorted(pos, key=lambda z: 0 if z == act else 1):
+                            ok = False
                         rep.ob("P6-state-forwarded", f"{rel}::{c.name}.{mth.name}", f"{c.name}.{mth.name}: `{short(x, 70)}`", ok,
                                f"{c.name}.{mth.name} re-schedules its action through `{short(x, 60)}` without the state it was given: the action is "
                                f"invoked with None — a periodic wrapper scheduled through this path (e.g. a reschedule with an overdue / zero "
